@@ -100,44 +100,60 @@ theorem Grown_rotate (P : Record → Prop) (g : GDir) (a : Nat) : Grown P a g (g
 
 /-! ## state level -/
 
+/-- the log only grows, by entries whose records satisfy `P` -/
+def LogExt (P : Record → Prop) (g g' : GDir) : Prop := ∃ new, logOf g' = logOf g ++ new ∧ ∀ x ∈ new, P x.1
+
+theorem LogExt.refl (P : Record → Prop) (g : GDir) : LogExt P g g := ⟨[], by simp, by simp⟩
+
+theorem LogExt.trans {P : Record → Prop} {g g' g'' : GDir} (h : LogExt P g g') (h' : LogExt P g' g'') : LogExt P g g'' := by
+  obtain ⟨n1, e1, p1⟩ := h
+  obtain ⟨n2, e2, p2⟩ := h'
+  refine ⟨n1 ++ n2, by rw [e2, e1, List.append_assoc], ?_⟩
+  intro x hx
+  rcases List.mem_append.mp hx with hx | hx
+  · exact p1 x hx
+  · exact p2 x hx
+
+theorem LogExt_append (P : Record → Prop) (g0 : GDir) (a : Nat) (gf rs : GFile) (hP : ∀ r ∈ rs, P r) :
+    LogExt P (g0 ++ [(a, gf)]) (g0 ++ [(a, gf ++ rs)]) :=
+  ⟨_, logOf_append_recs g0 a gf rs, fun _ hx => hP _ (List.of_mem_zip hx).1⟩
+
 structure GStep (P : Record → Prop) (db : DB) (g : GDir) (s' : St) (db' : DB) (g' : GDir) : Prop where
   files : Files s' db' g'
   grown : Grown P db.activeId g g'
   act : db.activeId ≤ db'.activeId
+  log : LogExt P g g'
 
 theorem GStep.trans {P : Record → Prop} {db db' db'' : DB} {g g' g'' : GDir} {s' s'' : St}
     (h : GStep P db g s' db' g') (h' : GStep P db' g' s'' db'' g'') : GStep P db g s'' db'' g'' :=
-  ⟨h'.files, h.grown.trans h'.grown h.act, Nat.le_trans h.act h'.act⟩
-
-theorem GStep.mono {P Q : Record → Prop} (hPQ : ∀ r, P r → Q r) {db db' : DB} {g g' : GDir} {s' : St}
-    (h : GStep P db g s' db' g') : GStep Q db g s' db' g' :=
-  ⟨h.files, h.grown.mono hPQ, h.act⟩
+  ⟨h'.files, h.grown.trans h'.grown h.act, Nat.le_trans h.act h'.act, h.log.trans h'.log⟩
 
 theorem _root_.XixiKV.Engine.Files.hasActive {s : St} {db : DB} {g : GDir} (h : Files s db g) : ∃ x ∈ g, db.activeId ≤ x.1 := by
   obtain ⟨g0, gf, hg, _⟩ := h.last
   exact ⟨(db.activeId, gf), by rw [hg]; simp, Nat.le_refl _⟩
 
 theorem GStep.refl (P : Record → Prop) {s : St} {db : DB} {g : GDir} (h : Files s db g) : GStep P db g s db g :=
-  ⟨h, Grown.refl P h.hasActive, Nat.le_refl _⟩
+  ⟨h, Grown.refl P h.hasActive, Nat.le_refl _, LogExt.refl P g⟩
 
 /-- same world, same directory and active id: the handle may differ in every other field -/
 theorem GStep.congr {P : Record → Prop} {db0 : DB} {g0 : GDir} {s s' : St} {db db' : DB} {g : GDir}
     (h : GStep P db0 g0 s db g) (hw : s'.world = s.world) (hd : db'.dir = db.dir) (ha : db'.activeId = db.activeId) :
     GStep P db0 g0 s' db' g :=
-  ⟨h.files.congr hw hd ha, h.grown, by rw [ha]; exact h.act⟩
+  ⟨h.files.congr hw hd ha, h.grown, by rw [ha]; exact h.act, h.log⟩
 
 theorem GStep_rotate (P : Record → Prop) {s : St} {db : DB} {g : GDir} (h : Files s db g) :
     GStep P db g (rotate s db).1 (rotate s db).2 (g ++ [(db.activeId + 1, [])]) := by
   obtain ⟨hf, hdb, _⟩ := rotate_spec h
-  exact ⟨hf, Grown_rotate P g db.activeId, by rw [hdb]; exact Nat.le_succ _⟩
+  exact ⟨hf, Grown_rotate P g db.activeId, by rw [hdb]; exact Nat.le_succ _, ⟨[], by rw [logOf_new_file]; simp, by simp⟩⟩
 
 theorem GStep_appendTail {P : Record → Prop} {s : St} {db : DB} {g : GDir} (h : Files s db g) (r : Record)
     (hr : RecOK r) (hP : P r) : ∃ g', GStep P db g (appendTail s db r).1 (appendTail s db r).2.1 g' := by
   obtain ⟨g0, gf, hg, _⟩ := h.last
   obtain ⟨hf, _, _, _, hact⟩ := PolicyP.Size.appendTail_specG h hg r hr
-  refine ⟨_, hf, ?_, by rw [hact]; exact Nat.le_refl _⟩
-  rw [hg]
-  exact Grown_append P g0 db.activeId gf [r] (fun r' hr' => by simp only [List.mem_singleton] at hr'; rw [hr']; exact hP)
+  have hP' : ∀ r' ∈ [r], P r' := fun r' hr' => by simp only [List.mem_singleton] at hr'; rw [hr']; exact hP
+  refine ⟨_, hf, ?_, by rw [hact]; exact Nat.le_refl _, ?_⟩
+  · rw [hg]; exact Grown_append P g0 db.activeId gf [r] hP'
+  · rw [hg]; exact LogExt_append P g0 db.activeId gf [r] hP'
 
 theorem GStep_appendLog {P : Record → Prop} {s : St} {db : DB} {g : GDir} (h : Files s db g) (r : Record)
     (hr : RecOK r) (hP : P r) : ∃ g', GStep P db g (appendLog s db r).1 (appendLog s db r).2.1 g' := by
@@ -153,12 +169,13 @@ theorem GStep_flushTail {P : Record → Prop} {s : St} {db : DB} {g : GDir} (h :
     ∃ g', GStep P db g (flushTail s db b).1 (flushTail s db b).2.1 g' := by
   obtain ⟨g0, gf, hg, _⟩ := h.last
   obtain ⟨hf, _, _, _, hact, _⟩ := PolicyP.Size.flushTail_specG h hg b hok hid
-  refine ⟨_, hf, ?_, by rw [hact]; exact Nat.le_refl _⟩
-  rw [hg]
-  apply Grown_append P g0 db.activeId gf
-  intro r hr
-  obtain ⟨st, hst, rfl⟩ := List.mem_map.mp hr
-  exact hP st hst
+  have hP' : ∀ r ∈ b.staged.map (toRec b.id), P r := by
+    intro r hr
+    obtain ⟨st, hst, rfl⟩ := List.mem_map.mp hr
+    exact hP st hst
+  refine ⟨_, hf, ?_, by rw [hact]; exact Nat.le_refl _, ?_⟩
+  · rw [hg]; exact Grown_append P g0 db.activeId gf _ hP'
+  · rw [hg]; exact LogExt_append P g0 db.activeId gf _ hP'
 
 theorem GStep_flushStaged {P : Record → Prop} {s : St} {db : DB} {g : GDir} (h : Files s db g) (b : BatchSt)
     (hok : ∀ r ∈ b.staged, StagedOK r) (hid : b.id < 2 ^ 64) (hP : ∀ r ∈ b.staged, P (toRec b.id r)) :
@@ -181,10 +198,10 @@ theorem GStep_seal {P : Record → Prop} {s : St} {db : DB} {g : GDir} (h : File
     (hid : b.id < 2 ^ 63) (hP : P (finRec b.id)) : ∃ g', GStep P db g (sealFile s db b) db g' := by
   obtain ⟨g0, gf, hg, _⟩ := h.last
   obtain ⟨hf, _⟩ := PolicyP.Size.seal_specG h hg b hid
-  refine ⟨_, hf, ?_, Nat.le_refl _⟩
-  rw [hg]
-  exact Grown_append P g0 db.activeId gf [finRec b.id]
-    (fun r' hr' => by simp only [List.mem_singleton] at hr'; rw [hr']; exact hP)
+  have hP' : ∀ r' ∈ [finRec b.id], P r' := fun r' hr' => by simp only [List.mem_singleton] at hr'; rw [hr']; exact hP
+  refine ⟨_, hf, ?_, Nat.le_refl _, ?_⟩
+  · rw [hg]; exact Grown_append P g0 db.activeId gf [finRec b.id] hP'
+  · rw [hg]; exact LogExt_append P g0 db.activeId gf [finRec b.id] hP'
 
 /-! ## the plain operations -/
 
@@ -220,7 +237,7 @@ theorem sync_gstep {s : St} {db : DB} {g : GDir} (hs : s.db = some db) (h : File
     (syncDB s).1.db = some db ∧ GStep IsPlain db g (syncDB s).1 db g := by
   unfold syncDB withDB
   rw [hs]
-  exact ⟨hs, Files_sync h, Grown.refl _ h.hasActive, Nat.le_refl _⟩
+  exact ⟨hs, Files_sync h, Grown.refl _ h.hasActive, Nat.le_refl _, LogExt.refl _ g⟩
 
 /-! ## the batch operations -/
 
